@@ -87,7 +87,7 @@ func DecryptMessageWithTempKeys(msg []byte, nonceSecond, nonceServer *big.Int) [
 	decodedMessage := decodedWithHash[20:]
 
 	// режем последние 0-15 байт ориентируюясь по хешу
-	for i := len(decodedMessage) - 1; i > len(decodedMessage)-16; i-- {
+	for i := len(decodedMessage); i > len(decodedMessage)-16 && i >= 0; i-- {
 		if bytes.Equal(decodedHash, dry.Sha1Byte(decodedMessage[:i])) {
 			return decodedMessage[:i]
 		}
@@ -103,7 +103,7 @@ func EncryptMessageWithTempKeys(msg []byte, nonceSecond, nonceServer *big.Int) [
 	// добавляем остаток рандомных байт в сообщение, что бы суммарно оно делилось на 16
 	totalLen := len(hash) + len(msg)
 	overflowedLen := totalLen % 16
-	needToAdd := 16 - overflowedLen
+	needToAdd := (16 - overflowedLen) % 16 // from 0 to 15 bytes
 
 	msg = bytes.Join([][]byte{hash, msg, dry.RandomBytes(needToAdd)}, []byte{})
 	return encryptMessageWithTempKeys(msg, nonceSecond, nonceServer)
@@ -119,6 +119,18 @@ func encryptMessageWithTempKeys(msg []byte, nonceSecond, nonceServer *big.Int) [
 	return encodedWithHash
 }
 
+// fixedSizeBytes returns big endian bytes of v, padded by leading zeros up to size bytes
+func fixedSizeBytes(v *big.Int, size int) []byte {
+	b := v.Bytes()
+	if len(b) >= size {
+		return b[:size]
+	}
+
+	res := make([]byte, size)
+	copy(res[size-len(b):], b)
+	return res
+}
+
 // https://tlgrm.ru/docs/mtproto/auth_key#server-otvecaet-dvuma-sposobami
 // generateTempKeys генерирует временные ключи для шифрования в процессе обемна ключами.
 func generateTempKeys(nonceSecond, nonceServer *big.Int) (key, iv []byte) {
@@ -129,17 +141,21 @@ func generateTempKeys(nonceSecond, nonceServer *big.Int) (key, iv []byte) {
 		panic("nonceServer is nil")
 	}
 
+	// nonces are fixed size values (int256 and int128), big.Int.Bytes() drops leading zero bytes
+	nonceSecondBytes := fixedSizeBytes(nonceSecond, 32) //nolint:gomnd size of int256
+	nonceServerBytes := fixedSizeBytes(nonceServer, 16) //nolint:gomnd size of int128
+
 	// nonceSecond + nonceServer
 	t1 := make([]byte, 48)
-	copy(t1[0:], nonceSecond.Bytes())
-	copy(t1[32:], nonceServer.Bytes())
+	copy(t1[0:], nonceSecondBytes)
+	copy(t1[32:], nonceServerBytes)
 	// SHA1 of nonceSecond + nonceServer
 	hash1 := dry.Sha1Byte(t1)
 
 	// nonceServer + nonceSecond
 	t2 := make([]byte, 48)
-	copy(t2[0:], nonceServer.Bytes())
-	copy(t2[16:], nonceSecond.Bytes())
+	copy(t2[0:], nonceServerBytes)
+	copy(t2[16:], nonceSecondBytes)
 	// SHA1 of nonceServer + nonceSecond
 	hash2 := dry.Sha1Byte(t2)
 
@@ -151,8 +167,8 @@ func generateTempKeys(nonceSecond, nonceServer *big.Int) (key, iv []byte) {
 	copy(tmpAESKey[20:], hash2[0:12])
 
 	t3 := make([]byte, 64) // nonceSecond + nonceSecond
-	copy(t3[0:], nonceSecond.Bytes())
-	copy(t3[32:], nonceSecond.Bytes())
+	copy(t3[0:], nonceSecondBytes)
+	copy(t3[32:], nonceSecondBytes)
 	hash3 := dry.Sha1Byte(t3) // SHA1 of nonceSecond + nonceSecond
 
 	// substr (SHA1(server_nonce + new_nonce), 12, 8) + SHA1(new_nonce + new_nonce) + substr (new_nonce, 0, 4);
@@ -162,7 +178,7 @@ func generateTempKeys(nonceSecond, nonceServer *big.Int) (key, iv []byte) {
 	// SHA1 of nonceSecond + nonceSecond
 	copy(tmpAESIV[8:], hash3)
 	// substr (nonceSecond, 0, 4)
-	copy(tmpAESIV[28:], nonceSecond.Bytes()[0:4])
+	copy(tmpAESIV[28:], nonceSecondBytes[0:4])
 
 	return tmpAESKey, tmpAESIV
 }
